@@ -24,11 +24,14 @@ def _work(args):
                 "wall": round(time.time() - t0, 2), "paths": 0, "exits": 0, "canary": None, "kind": "?"}
 
 
-def run_targets(targets, timeout_ms=10000, jobs=None, group=None):
+def run_targets(targets, timeout_ms=10000, jobs=None, group=None, slow=None):
     jobs = jobs or min(16, os.cpu_count() or 4)
     out = {}
+    slow = slow or {}
     with ProcessPoolExecutor(max_workers=jobs) as ex:
-        futs = {ex.submit(_work, (t, timeout_ms, group)): t for t in targets}
+        # functions with a recorded larger budget first (they dominate the wall time)
+        order = sorted(targets, key=lambda t: -slow.get(t, 0))
+        futs = {ex.submit(_work, (t, max(timeout_ms, slow.get(t, 0)), group)): t for t in order}
         for f in as_completed(futs):
             r = f.result()
             out[r["target"]] = r
